@@ -92,7 +92,7 @@ Proof.
       assert (HL : LInv (a_ranges s1) l) by (destruct I1 as [_ Il _ _ _ _]; rewrite Forall_forall in Il; apply Il; assumption).
       destruct (take_slots_linv _ _ _ _ _ HL T) as (_ & En & Ek & _).
       apply (with_list_ainv s1 l l'); [assumption|rewrite Lns; assumption|assumption|assumption].
-    + destruct try_; [|discriminate]. injection H as <-. assumption.
+    + destruct (try_ && _) in H; [|discriminate]. injection H as <-. assumption.
     + destruct try_; [discriminate|]. injection H as <-. assumption.
   - destruct evs; [|destruct r; discriminate].
     destruct r; try discriminate.
